@@ -411,38 +411,38 @@ def _dispatch(chk, repo, folder):
     chk.check(ccs is not None and ff.is_form(ccs, "command & 0xE0"), "R7", f"{SV}:SdoServer.on_request | specifier extraction", f.loc(),
               f"ccs = {src(ccs) if ccs is not None else '?'}; expected command & 0xE0")
     seen = {}
-    node = None
-    for n in own_nodes(f.node):
-        if isinstance(n, ast.If) and isinstance(n.test, ast.Compare) and src(n.test.left) == "ccs":
-            if node is None or n.lineno < node.lineno:
-                node = n
-    cur = node
+    # every handler call is selected by exactly one positive fact `ccs == K` (wherever in the function the chain sits: in the
+    # try body, split over an outer if, or in any order); the call under negative facts only is the answer to unknown specifiers
     has_else = False
-    while cur is not None:
-        v = folder.try_fold(cur.test.comparators[0], ff.scope, None) if isinstance(cur.test, ast.Compare) and isinstance(cur.test.ops[0], ast.Eq) else None
-        body = cur.body
-        callee = dotted(body[0].value.func) if len(body) == 1 and isinstance(body[0], ast.Expr) and isinstance(body[0].value, ast.Call) else None
-        if v is None or callee is None:
-            chk.unk("R7", f"{SV}:SdoServer.on_request | branch {src(cur.test)}", f.loc(cur), "dispatch branch is not `ccs == CONST: self.handler(...)`")
-        else:
-            if v in seen:
-                chk.bad("R7", f"{SV}:SdoServer.on_request | specifier 0x{v:02X}", f.loc(cur), "tested twice: the second branch is dead")
-            seen[v] = callee
-            want = DISPATCH.get(v)
-            chk.check(want is not None and callee == f"self.{want}", "R7", f"{SV}:SdoServer.on_request | specifier 0x{v:02X}", f.loc(cur),
-                      f"requests with ccs 0x{v:02X} are handled by {callee}; CiA 301 makes that a {want or 'nothing'} request")
-        if len(cur.orelse) == 1 and isinstance(cur.orelse[0], ast.If) and isinstance(cur.orelse[0].test, ast.Compare) and src(cur.orelse[0].test.left) == "ccs":
-            cur = cur.orelse[0]
-        else:
-            has_else = bool(cur.orelse)
-            if has_else:
-                ok = any(isinstance(x, ast.Call) and dotted(x.func) == "self.abort" for s_ in cur.orelse for x in ast.walk(s_))
-                chk.check(ok, "R7", f"{SV}:SdoServer.on_request | unknown specifier answered", f.loc(cur), "the else branch does not abort")
-            cur = None
+    handler_names = {f"self.{v}" for v in DISPATCH.values()} | {"self.request_aborted"}
+    for c in [x for x in own_nodes(f.node) if isinstance(x, ast.Call) and (dotted(x.func) or "").startswith("self.") and (dotted(x.func) in handler_names or dotted(x.func) == "self.abort")]:
+        st = ff.stmt_of(c)
+        if any(isinstance(h, ast.ExceptHandler) and any(y is st for y in ast.walk(h)) for h in own_nodes(f.node)):
+            continue                    # the aborts of the exception handlers are R9's business
+        facts = [(e, p) for e, p in ff.facts_at(st) if isinstance(e, ast.Compare) and src(e.left) == "ccs" and isinstance(e.ops[0], (ast.Eq, ast.NotEq))]
+        pos = []
+        for e, p in facts:
+            k = folder.try_fold(e.comparators[0], ff.scope, None)
+            if (isinstance(e.ops[0], ast.Eq) and p) or (isinstance(e.ops[0], ast.NotEq) and not p):
+                pos.append(k)
+        callee = dotted(c.func)
+        if callee == "self.abort" and not pos:
+            has_else = len(facts) >= len(DISPATCH)
+            continue
+        if len(pos) != 1 or pos[0] is None:
+            chk.unk("R7", f"{SV}:SdoServer.on_request | call {callee}", f.loc(c), f"not selected by one test `ccs == CONST` (facts {[(src(e), p) for e, p in facts]})")
+            continue
+        v = pos[0]
+        if v in seen and seen[v] != callee:
+            chk.bad("R7", f"{SV}:SdoServer.on_request | specifier 0x{v:02X}", f.loc(c), f"selects both {seen[v]} and {callee}")
+        seen[v] = callee
+        want = DISPATCH.get(v)
+        chk.check(want is not None and callee == f"self.{want}", "R7", f"{SV}:SdoServer.on_request | specifier 0x{v:02X}", f.loc(c),
+                  f"requests with ccs 0x{v:02X} are handled by {callee}; CiA 301 makes that a {want or 'nothing'} request")
     for v, name in DISPATCH.items():
         if v not in seen:
             chk.bad("R7", f"{SV}:SdoServer.on_request | specifier 0x{v:02X}", f.loc(), f"no branch for ccs 0x{v:02X} ({name})")
-    chk.check(has_else, "R7", f"{SV}:SdoServer.on_request | else branch", f.loc(), "no else branch: ccs 0xE0 falls silent")
+    chk.check(has_else, "R7", f"{SV}:SdoServer.on_request | else branch", f.loc(), "no call of abort() under `ccs` different from every handled specifier: ccs 0xE0 falls silent")
 
 
 # ---------------------------------------------------------------------------------------------------- R8
